@@ -1,0 +1,124 @@
+//go:build verif
+// +build verif
+
+package netpoll
+
+// Contracts for the poller pool (poll_manager.go, poll_loadbalance.go). Comment-only, build tag verif.
+
+// prun[p]: the loop of poller p (identified by its pointer) has been started and not been told to stop
+// pclosed[p]: Close has been called on poller p (ghost)
+//@ ghost map prun bool
+//@ ghost map pclosed bool
+
+//@ iface Poll.Close
+//@   results err
+//@   ensures pclosed[recv#val] && !prun[recv#val]
+//@   ensures forall x int :: x != recv#val ==> pclosed[x] == old(pclosed[x]) && prun[x] == old(prun[x])
+//@   modifies pclosed, prun
+//@ iface Poll.Wait
+//@   results err
+
+//@ extern fastrand.Intn
+//@   params n
+//@   requires n > 0
+//@   ensures 0 <= result && result < n
+
+//@ pred pollsok(ps []Poll) = (forall i int {ps[i]#val} :: 0 <= i && i < len(ps) ==> ps[i] != nil && prun[ps[i]#val])
+//@     && (forall i int, j int :: 0 <= i && i < j && j < len(ps) ==> ps[i]#val != ps[j]#val)
+
+//@ func (*roundRobinLB).Pick
+//@   property C18
+//@   requires b.pollSize > 0 && b.pollSize == len(b.polls) && b.accepted < 9223372036854775806
+//@   ensures b.accepted == old(b.accepted) + 1 && sameslice(b.polls, old(b.polls))
+//@   ensures poll == b.polls[(old(b.accepted) + 1) % b.pollSize]
+//@   modifies b.accepted
+//@
+//@ func (*roundRobinLB).Rebalance
+//@   property C18
+//@   ensures sameslice(b.polls, polls) && b.pollSize == len(polls) && b.accepted == old(b.accepted)
+//@   modifies b.polls, b.pollSize
+//@
+//@ func (*randomLB).Pick
+//@   property C18
+//@   requires b.pollSize > 0 && b.pollSize == len(b.polls)
+//@   ensures exists i int :: 0 <= i && i < len(b.polls) && poll == b.polls[i]
+//@
+//@ func (*randomLB).Rebalance
+//@   property C18
+//@   ensures sameslice(b.polls, polls) && b.pollSize == len(polls)
+//@   modifies b.polls, b.pollSize
+
+// the balancer agrees with the manager's poller slice
+//@ pred lbkind(m *manager) = typeis(m.balance, *roundRobinLB) || typeis(m.balance, *randomLB)
+//@ pred lbsync(m *manager) = (typeis(m.balance, *roundRobinLB) ==> sameslice(as(m.balance, *roundRobinLB).polls, m.polls) && as(m.balance, *roundRobinLB).pollSize == len(m.polls) && as(m.balance, *roundRobinLB).accepted < 9223372036854775000)
+//@     && (typeis(m.balance, *randomLB) ==> sameslice(as(m.balance, *randomLB).polls, m.polls) && as(m.balance, *randomLB).pollSize == len(m.polls))
+// what always holds of the manager; what holds once status == initialised
+//@ pred mbase(m *manager) = lbkind(m) && lbsync(m) && m.numLoops >= 1 && pollsok(m.polls) && m.status >= 0 && m.status <= 2
+//@ pred mgood(m *manager) = len(m.polls) >= 1
+//@ ghost global runFailed bool
+
+//@ func (*manager).SetNumLoops
+//@   property C18
+//@   requires mbase(m)
+//@   ensures numLoops < 1 ==> err != nil && m.numLoops == old(m.numLoops) && m.status == old(m.status)
+//@   ensures numLoops >= 1 && numLoops <= 2147483647 ==> err == nil && m.numLoops == numLoops && m.status == 0
+//@   modifies m.numLoops, m.status
+
+//@ func openPoll
+//@   trusted opens an epoll instance and its wake-up descriptor (verified separately under C15: openDefaultPoll)
+//@   results p err
+//@   ensures (err == nil) == (p != nil)
+//@   ensures p != nil ==> fresh(p#val) && !prun[p#val] && !pclosed[p#val]
+
+//@ func (*manager).Run
+//@   property C18
+//@   requires mbase(m)
+//@   ensures err == nil ==> len(m.polls) == m.numLoops && pollsok(m.polls) && lbsync(m) && lbkind(m) && m.numLoops >= 1 && m.status == old(m.status)
+//@   ensures err == nil ==> forall i int :: m.numLoops <= i && i < old(len(m.polls)) ==> pclosed[old(m.polls[i])#val]
+//@   ensures err == nil ==> forall i int :: 0 <= i && i < old(len(m.polls)) && i < m.numLoops ==> m.polls[i] == old(m.polls[i])
+//@   modifies anything
+//@   rely manager.numLoops: now == was
+//@   ghost after call invoke.Wait#1: prun[poll#val] = true
+//@   loop 1 invariant lbkind(m) && lbsync(m) && numLoops <= idx && idx <= len(m.polls) && sameslice(m.polls, old(m.polls)) && len(polls) == numLoops && fresh(polls) && numLoops >= 1
+//@   loop 1 invariant forall i int :: 0 <= i && i < numLoops ==> polls[i] == old(m.polls[i])
+//@   loop 1 invariant forall i int :: numLoops <= i && i < idx ==> pclosed[old(m.polls[i])#val]
+//@   loop 1 invariant forall i int :: 0 <= i && i < numLoops ==> prun[old(m.polls[i])#val] && old(m.polls[i]) != nil
+//@   loop 1 invariant forall i int, j int :: 0 <= i && i < j && j < len(m.polls) ==> m.polls[i]#val != m.polls[j]#val
+//@   loop 1 invariant forall i int :: 0 <= i && i < len(m.polls) ==> m.polls[i] != nil
+//@   loop 2 invariant lbkind(m) && lbsync(m) && pollsok(m.polls) && len(m.polls) <= idx && idx <= numLoops && sameslice(m.polls, old(m.polls)) && len(polls) == numLoops && fresh(polls)
+//@   loop 2 invariant forall i int :: 0 <= i && i < len(m.polls) ==> polls[i] == old(m.polls[i])
+//@   loop 2 invariant forall i int :: 0 <= i && i < idx ==> polls[i] != nil && prun[polls[i]#val]
+//@   loop 2 invariant forall i int, j int :: 0 <= i && i < j && j < idx ==> polls[i]#val != polls[j]#val
+
+//@ func (*manager).Pick
+//@   property C18
+//@   requires mbase(m) && (m.status == 2 ==> mgood(m))
+//@   assume m.status != 1
+//@   note the loser of the initialisation CAS spins until the winner publishes; the spin is cut by assuming it is not observed (termination not proved)
+//@   threadlocal !runFailed
+//@   ensures !runFailed ==> result != nil && prun[result#val]
+//@   modifies anything
+//@   ghost after call (*manager).Run#1: runFailed = result != nil
+//@   loop 1 invariant mbase(m) && (m.status == 2 ==> mgood(m)) && !runFailed
+
+//@ func (*manager).Close
+//@   property C18
+//@   ensures m.numLoops == 0 && m.balance == nil && len(m.polls) == 0
+//@   ensures forall i int :: 0 <= i && i < old(len(m.polls)) ==> pclosed[old(m.polls[i])#val]
+//@   modifies m.numLoops, m.balance, m.polls, pclosed, prun
+//@   requires forall i int :: 0 <= i && i < len(m.polls) ==> m.polls[i] != nil
+//@   loop 1 invariant -1 <= rangeindex && rangeindex < len(m.polls) && sameslice(m.polls, old(m.polls))
+//@   loop 1 invariant forall i int :: 0 <= i && i <= rangeindex ==> pclosed[old(m.polls[i])#val]
+
+//@ func newRoundRobinLB
+//@   property C18
+//@   ensures typeis(result, *roundRobinLB) && sameslice(as(result, *roundRobinLB).polls, polls) && as(result, *roundRobinLB).pollSize == len(polls) && as(result, *roundRobinLB).accepted == 0
+//@ func newRandomLB
+//@   property C18
+//@   ensures typeis(result, *randomLB) && sameslice(as(result, *randomLB).polls, polls) && as(result, *randomLB).pollSize == len(polls)
+//@ func newLoadbalance
+//@   property C18
+//@   ensures (typeis(result, *roundRobinLB) && sameslice(as(result, *roundRobinLB).polls, polls) && as(result, *roundRobinLB).pollSize == len(polls) && as(result, *roundRobinLB).accepted == 0)
+//@        || (typeis(result, *randomLB) && sameslice(as(result, *randomLB).polls, polls) && as(result, *randomLB).pollSize == len(polls))
+//@   ensures lb == 1 ==> typeis(result, *randomLB)
+//@   ensures lb == 0 ==> typeis(result, *roundRobinLB)
